@@ -17,7 +17,7 @@ from harness import fgfactory as F
 from harness.core import Ctx
 from harness.corr import c11 as B
 
-SUITES = {"e2e_opts"}
+SUITES = {"e2e_opts", "e2e_uneval"}
 ASSUMPTIONS = ["e2e_opts: numeric / string filter columns inside the oracle domain of c11.py; at least one row kept (empty results on PythonDict are finding F-C11-pythondict-empty-result)"]
 
 PLACEMENTS = ["none", "group", "context", "both"]
@@ -36,6 +36,7 @@ def _options(placement: str, tag: int) -> Any:
 
 
 def run(ctx: Ctx, scale: float = 1.0) -> None:
+    run_uneval(ctx, scale)
     from mloda.user import mloda, GlobalFilter, Feature
 
     rng = ctx.rng
@@ -103,6 +104,8 @@ def run(ctx: Ctx, scale: float = 1.0) -> None:
                     single = B._single(B.engines(), eng, cols, col_, ft, p)
                     fcs.add(B.finding_class(eng, c["ct"], c["col"], ft, p, single, B.oracle_rows(c["col"], ft, p)))
                 fcs.discard(None)
+                if isinstance(got, dict) and "err" not in got:
+                    fcs.discard("pyarrow-isin-untyped-value-set-on-string-column")  # that finding is a raised ArrowTypeError, never returned rows
                 if fcs:
                     cls = sorted(fcs)[0]
                 if same_set_diff_ctx and isinstance(got, dict) and "have the same filters" in str(got.get("err", "")):
@@ -110,8 +113,48 @@ def run(ctx: Ctx, scale: float = 1.0) -> None:
                 ctx.violation("e2e_opts", case, f"rows returned under a global filter differ from the rows satisfying it (feature options: {c['placements']})", got, exp, finding_class=cls)
 
 
+def run_uneval(ctx: Ctx, scale: float = 1.0) -> None:
+    """suite e2e_uneval: a filter the framework's engine CANNOT evaluate (a filter type no engine implements; a regex on an int column,
+    which PyArrow refuses with ArrowNotImplementedError - a NotImplementedError subclass) next to an ordinary range filter.  The property
+    speaks of the rows RETURNED: failing the request is fine, returning rows that do not satisfy the evaluable filter is not."""
+    from mloda.user import mloda, GlobalFilter, Feature
+
+    rng = ctx.rng
+    for _ in range(int(ctx.budget(24, 200) * scale)):
+        col = [rng.randint(-3, 9) for _ in range(rng.choice([4, 6, 8]))]
+        lo = rng.randint(-2, 4)
+        hi = lo + rng.randint(1, 5)
+        kind = rng.choice(["custom_type", "custom_type", "regex_on_int"])
+        bad = ["x", rng.choice(["not_equal", "zscore", "top_k"]), {"value": rng.randint(0, 5)}] if kind == "custom_type" else ["x", "regex", {"value": "^1"}]
+        filters = [["x", "range", {"min": lo, "max": hi, "max_exclusive": False}], bad]
+        if rng.random() < 0.5:
+            filters.reverse()
+        cols = {"x": ("int", col), "v0": ("int", [10 * k for k in range(len(col))])}
+        keep = [k for k, x in enumerate(col) if lo <= x <= hi]
+        for eng in ["py", "pa", "pd"]:
+            G = B.make_e2e_group("G11u_", eng, cols)
+            gf = GlobalFilter()
+            try:
+                for c_, ft, p in filters:
+                    gf.add_filter(c_, ft, dict(p))
+            except Exception:
+                continue
+            case = {"eng": eng, "col": col, "filters": filters, "kind": kind}
+            try:
+                res = mloda.run_all([Feature("v0")], compute_frameworks={F.FW_SHORT[B.E2E_FW[eng]]}, plugin_collector=F.collector({G}), global_filter=gf)
+                got: Any = sorted(v for r in res for v in F.to_columns(r).get("v0", []))
+                outcome = "returned"
+            except Exception as e:  # noqa: BLE001
+                got = {"err": type(e).__name__}
+                outcome = "raised"
+            ctx.case("e2e_uneval", case, True, engine=eng, uneval_kind=kind, uneval_outcome=outcome)
+            if outcome == "returned" and not set(got) <= {10 * k for k in keep}:
+                ctx.violation("e2e_uneval", case, f"rows returned although one filter could not be evaluated, and they do not satisfy the range filter [{lo}, {hi}]", got, [10 * k for k in keep])
+
+
 def search(ctx: Ctx, broken: List[str]) -> None:
     run(ctx, 1.0)
+    run_uneval(ctx, 1.0)
 
 
 def replay(ctx: Ctx, body: Dict[str, Any]) -> None:
